@@ -85,6 +85,31 @@ def warn_fp():
     return repr([(f[0], str(f[1]), f[2].__name__, str(f[3]), f[4]) for f in warnings.filters])
 
 
+def interp_fp():
+    """interpreter-wide settings a library call has no business changing (a query that raises the recursion limit,
+    switches the decimal context or the locale, installs a trace function, ... disturbs every other user of the process)"""
+    import decimal
+    import gc
+    import locale
+    import logging
+    import os
+    import sys
+    ctx = decimal.getcontext()
+    return (('sys.recursionlimit', sys.getrecursionlimit()),
+            ('sys.switchinterval', sys.getswitchinterval()),
+            ('sys.settrace/setprofile', sys.gettrace() is None, sys.getprofile() is None),
+            ('gc', gc.isenabled(), gc.get_threshold()),
+            ('decimal.context', ctx.prec, ctx.rounding, ctx.Emax, ctx.Emin),
+            ('locale', locale.setlocale(locale.LC_ALL)),
+            ('os.getcwd', os.getcwd()),
+            ('os.environ', len(os.environ)),
+            ('sys.path', len(sys.path)),
+            ('logging.root', logging.root.level, len(logging.root.handlers), logging.root.disabled),
+            ('sys.int_max_str_digits', sys.get_int_max_str_digits()),
+            ('sys.excepthook', sys.excepthook is sys.__excepthook__, sys.displayhook is sys.__displayhook__),
+            ('sys.stdout/stderr', sys.stdout is sys.__stdout__, sys.stderr is sys.__stderr__))
+
+
 class Globals:
     """Snapshot / compare helper."""
 
@@ -94,7 +119,7 @@ class Globals:
         self.warn0 = warn_fp()
 
     def cheap(self):
-        return (random.getstate(), db_cheap(), const_cheap(), warn_fp())
+        return (random.getstate(), db_cheap(), const_cheap(), warn_fp(), interp_fp())
 
     @staticmethod
     def diff_cheap(a, b):
@@ -113,6 +138,11 @@ class Globals:
             return 'constants'
         if a[3] != b[3]:
             return 'warnings.filters'
+        if len(a) > 4 and a[4] != b[4]:
+            for x, y in zip(a[4], b[4]):
+                if x != y:
+                    return x[0]
+            return 'interpreter'
         return None
 
     def diff_full(self):
